@@ -23,7 +23,7 @@ import (
 
 func init() {
 	registry["C17"] = func(rep *core.Report) {
-		shards := []string{"seq", "2x1", "2x2", "3x1", "2x(2,1)", "blocked-key", "expiry", "expiry-janitor"}
+		shards := []string{"seq", "2x1", "2x2", "3x1", "2x(2,1)", "blocked-key", "expiry", "expiry-janitor", "expiry-2cycles", "expiry-janitor-2cycles"}
 		rep.Set("engine", "vrt+explore: every interleaving of the Memoize callers (scheduling points inside the cache's RWMutex and singleflight's Mutex/WaitGroup), callback latency = 0/1/2 scheduling points, callback outcome = Choose(value|error)")
 		if !runWorkers(rep, "C17worker", shards, nil) {
 			fmt.Fprintln(os.Stderr, "C17: worker failure")
@@ -63,6 +63,9 @@ func c17worker(arg string) {
 	if thorough {
 		c.deadline = time.Now().Add(20 * time.Minute)
 		c.budget = 3000000
+	}
+	if arg == "expiry-janitor-2cycles" && !thorough {
+		c.budget = 600000 // five threads over eight clock units: preemption bound 2 needs this many schedules
 	}
 	keys := []string{"p", "q"}
 	var progs [][][]string // threads -> calls -> key
@@ -114,8 +117,20 @@ func c17worker(arg string) {
 			add([]string{"p", "p", "q"}) // a second key stored after the first one was swept
 			add([]string{"p", "p"}, []string{"q"})
 		}
+	case "expiry-2cycles", "expiry-janitor-2cycles":
+		// the clock runs for 8 units (lifetime 3): a value is cached, expires (and is swept), is computed
+		// again, cached again and expires again -- whatever only goes wrong the second time round
+		add([]string{"p", "p", "p", "p", "p"})
+		add([]string{"p", "p", "p"}, []string{"p", "p"})
+		if thorough {
+			add([]string{"p", "p", "p"}, []string{"p", "p", "p"})
+			add([]string{"p", "q", "p", "q", "p"})
+		}
 	}
 	latencies := []int{0, 1, 2}
+	if strings.HasSuffix(arg, "-2cycles") {
+		latencies = []int{0, 1}
+	}
 	if arg == "2x2" || arg == "3x1" {
 		latencies = []int{0, 1}
 	}
@@ -124,7 +139,7 @@ func c17worker(arg string) {
 			if arg == "expiry-janitor" && lat == 2 {
 				continue
 			}
-			c17scenario(c, arg, prog, lat, arg == "expiry" || arg == "expiry-janitor")
+			c17scenario(c, arg, prog, lat, strings.HasPrefix(arg, "expiry"))
 		}
 	}
 	c.st.States = len(c.states)
@@ -140,13 +155,20 @@ func c17scenario(c *c20ctx, fam string, prog [][]string, lat int, expiry bool) {
 		th = append(th, strings.Join(t, ";"))
 	}
 	name := fmt.Sprintf("Memoize(%s; latency=%d; expiry=%t)", strings.Join(th, " ‖ "), lat, expiry)
-	janitor := fam == "expiry-janitor"
+	janitor := strings.HasPrefix(fam, "expiry-janitor")
+	clockSteps := 2
+	if strings.HasSuffix(fam, "-2cycles") {
+		clockSteps = 4
+	}
 	outcomes := 2 // value | error
 	if fam == "seq" || fam == "2x1" || fam == "2x(2,1)" || thorough {
 		outcomes = 3 // ... | error together with a value
 	}
 	if janitor {
 		name = fmt.Sprintf("Memoize(%s; latency=%d; expiry=3, cleanup-interval=2)", strings.Join(th, " ‖ "), lat)
+	}
+	if clockSteps != 2 {
+		name += fmt.Sprintf(" clock %d x Advance(2)", clockSteps)
 	}
 	bound := 0
 	if len(prog) >= 3 || fam == "2x2" || janitor {
@@ -247,8 +269,9 @@ func c17scenario(c *c20ctx, fam string, prog [][]string, lat int, expiry bool) {
 			wg.Add(1)
 			vrt.GoNamed("clock", false, func() {
 				defer wg.Done()
-				vrt.Advance(2 * unit)
-				vrt.Advance(2 * unit)
+				for i := 0; i < clockSteps; i++ {
+					vrt.Advance(2 * unit)
+				}
 			})
 		}
 		wg.Wait()
